@@ -288,10 +288,15 @@ async def create_tcp_local_listener(
         listen_port: int) -> 'SSHForwardListener':
     """Create a listener to forward traffic from a local TCP port over SSH"""
 
-    addrinfo = await loop.getaddrinfo(listen_host or None, listen_port,
-                                      family=socket.AF_UNSPEC,
-                                      type=socket.SOCK_STREAM,
-                                      flags=socket.AI_PASSIVE)
+    try:
+        addrinfo = await loop.getaddrinfo(listen_host or None, listen_port,
+                                          family=socket.AF_UNSPEC,
+                                          type=socket.SOCK_STREAM,
+                                          flags=socket.AI_PASSIVE)
+    except ValueError as exc:
+        # Host names the resolver refuses (empty labels, labels
+        # which are too long, embedded NULs) raise ValueError
+        raise OSError(errno.EINVAL, str(exc)) from None
 
     if not addrinfo: # pragma: no cover
         raise OSError('getaddrinfo() returned empty list')
@@ -384,7 +389,11 @@ async def create_unix_forward_listener(conn: 'SSHConnection',
 
         return SSHLocalPathForwarder(conn, coro)
 
-    server = await loop.create_unix_server(protocol_factory, listen_path)
+    try:
+        server = await loop.create_unix_server(protocol_factory, listen_path)
+    except ValueError as exc:
+        # Paths containing a NUL raise ValueError
+        raise OSError(errno.EINVAL, str(exc)) from None
 
     # The connection may have been closed while the socket was set up
     _check_conn_open(conn, [server])
